@@ -58,10 +58,27 @@ StatusMatches(ret44, reply) ==
         ELSE IF Uncovered(reply, i) THEN LimbsEq(WordAt(ret44, i), LimbsZero)
         ELSE TRUE      \* a partially covered word is not constrained
 
+\* The kernel sends the status from a thread of its own: it may overtake the acknowledgement.  A client may
+\* refuse that order (the code as it stands does); one that accepts it must still return the kernel's fields.
+JudgeGetStatusReplyFirst(o, fr, i) ==
+    LET f  == fr[i - 1]
+        a2 == AckOf(fr, i)
+    IN  IF o.ret # "nil" \/ a2.v = -2 THEN << >>
+        ELSE IF a2.v # 0 THEN << Flag("C08", "GetStatus returned nil although the kernel did not acknowledge the request with errno 0") >>
+        ELSE IF Len(o.data) # 1 \/ Len(o.data[1]) # SizeofAuditStatus THEN << Flag("C08", "GetStatus returned no status") >>
+        ELSE IF ~StatusMatches(o.data[1], f.payload)
+             THEN << Flag("C08", "GetStatus returned fields that differ from the kernel's reply"),
+                     Flag("C16", "status decoded differently from the audit_status layout") >>
+        ELSE << >>
+
 JudgeGetStatus(o) ==
     LET fr == PlanAt(o.plan, 1)
         a  == AckOf(fr, 1)
-    IN  IF a.v # 0 THEN VerdictFlags("GetStatus", a.v, o)
+        n1 == NextAnswer(fr, 1, 0)
+    IN  IF n1.kind = "msg" /\ fr[n1.i - 1].rel = "own" /\ fr[n1.i - 1].type = AUDIT_GET
+           /\ Len(fr[n1.i - 1].payload) >= MinSizeofAuditStatus
+        THEN JudgeGetStatusReplyFirst(o, fr, n1.i)
+        ELSE IF a.v # 0 THEN VerdictFlags("GetStatus", a.v, o)
         ELSE LET r == NextAnswer(fr, a.i, 0) IN
              IF r.kind = "unjudged" THEN << >>
              ELSE IF r.kind # "msg" THEN
